@@ -14,8 +14,8 @@ import json, os, re
 import vcommon as V
 
 META = dict(
-    text="Lean 4. Tail position is defined from the property text as an inductive relation over the abstract syntax (Spec/TailPos.lean: last form of cond arms/default, begin, let, letseq, newScope bodies, last arm of and/or, nested arbitrarily; k = scopes crossed). About the executable model of the generator (Model/Gen.lean, one function per Generate*) it is proved, for bodies of every size and nesting: a self call in tail position is compiled to operands; PrepareCall; RemoveScope x (k+1); Goto 0 when the operand count fits, to one ordinary call (arity error at run time) when it does not (tail_position_gets_tail_sequence, self_call_wrong_arity, tail_sequence_layout: the pop count is exactly the scopes opened since function entry plus the function scope); a call reached through at least one non-tail step (cond test, non-last statement/arm, let initialiser, array element, def/set/assignment right-hand side) is compiled to one ordinary CallExpr, never to a jump (tail_flag_only_in_tail_position, with flag_mono: no Generate* ever sets the flag); every inline occurrence is one or the other (self_call_dichotomy). About the VM model (Model/VM.lean) it is proved on the real loop runLoop: from the tail sequence the machine reaches instruction 0 of the same function after k+3 steps with the data, scope and address stack depths of the original entry, fixed and variadic parameter lists, touching neither scope table, heap nor trace (tail_call_reenters_at_entry_depths); hence by induction on the number of iterations every re-entry has the depths of the first (tail_call_constant_space_partial, assuming the body stretch between entry and tail sequence is balanced). Transparency: TcoTransparent (VM model = reference evaluator) is stated, not proved; proved parts (tco_transparent_partial): no continuation is ever dropped, the tail sequence changes only pc/scope stack/packed operands, and the next iteration binds its parameters in a scope that did not exist before, so no scope captured by an earlier closure is written; the pre-fc05fc7 sequence (Goto 1) does write it (legacy_tail_call_rebinds_captured_scope_counterexample). The unit tests run depth 4 and 11 and look at one stack afterwards; the theorems cover every depth and nesting, and the correspondence runs depths 0..10^5 (thorough 10^6) sampling all three stacks at every re-entry, comparing each shape with the reference evaluator and, on the real code, with the same function bound anonymously (no optimisation).",
-    note="Trusted: Lean kernel; axioms propext/Classical.choice/Quot.sound. Model/Gen.lean and Model/VM.lean are hand-written and tied to zygo/generator.go, vm.go, environment.go only by the `tail` (and C02's `eval`) correspondence: differential testing, not proof. Partial: BodyBalanced (the body between function entry and the tail sequence leaves operands/scopes/addresses balanced) is a hypothesis of the space theorem, checked dynamically by the probe oracle on implementation and model, not derived from the generator (that is C04's gen_balanced/checker_sound); TcoTransparent is not proved (needs C02's CompileCorrect for the F3 fragment) and is held by the 3-way correspondence. Tail contexts outside the modelled core (package, return, macro expansions, infix blocks) are not covered by the theorems; `for` parts are non-tail in the model but have no step lemma. Constant space is a statement about the three interpreter stacks, not about Go heap use (closure creation in a loop is not constant-time in this interpreter: GenSymbol scans).",
+    text="Lean 4. Tail position is defined from the property text as an inductive relation over the abstract syntax (Spec/TailPos.lean: last form of cond arms/default, begin, let, letseq, newScope bodies, last arm of and/or, nested arbitrarily; k = scopes crossed). About the executable model of the generator (Model/Gen.lean, one function per Generate*) it is proved, for bodies of every size and nesting: a self call in tail position is compiled to operands; PrepareCall; RemoveScope x (k+1); Goto 0 when the operand count fits, to one ordinary call (arity error at run time) when it does not (tail_position_gets_tail_sequence, self_call_wrong_arity, tail_sequence_layout: the pop count is exactly the scopes opened since function entry plus the function scope); a call reached through at least one non-tail step (cond test, non-last statement/arm, let initialiser, array element, def/set/assignment right-hand side) is compiled to one ordinary CallExpr, never to a jump (tail_flag_only_in_tail_position, with flag_mono: no Generate* ever sets the flag); every inline occurrence is one or the other (self_call_dichotomy). About the VM model (Model/VM.lean) it is proved on the real loop runLoop: from the tail sequence the machine reaches instruction 0 of the same function after k+3 steps with the data, scope and address stack depths of the original entry, fixed and variadic parameter lists, touching neither scope table, heap nor trace (tail_call_reenters_at_entry_depths); hence by induction on the number of iterations every re-entry has the depths of the first (tail_call_constant_space_partial, assuming the body stretch between entry and tail sequence is balanced; tail_call_constant_space_same_activation, with no such assumption, for every entry state that satisfies the run-time invariant of C04's calling contract: whatever the activation does before it returns - nested calls, callees with tail calls of their own, any number of its own tail sequences - whenever it stands at instruction 0 again it has the data, scope and address depths of its entry). The statement over all loaded programs as first written is false (it confuses a later activation at the same address depth with the same activation) and is kept as TailCallConstantSpace_asFirstStated; the repaired TailCallConstantSpace (every loaded program of the model generator's grammar, every called function, any number of iterations) is proved: tail_call_constant_space_full, via loaded_invariant (every state such a program reaches satisfies the invariant, the top-level text being the bottom activation). Transparency: TcoTransparent (VM model = reference evaluator) is stated, not proved; proved parts (tco_transparent_partial): no continuation is ever dropped, the tail sequence changes only pc/scope stack/packed operands, and the next iteration binds its parameters in a scope that did not exist before, so no scope captured by an earlier closure is written; the pre-fc05fc7 sequence (Goto 1) does write it (legacy_tail_call_rebinds_captured_scope_counterexample). The unit tests run depth 4 and 11 and look at one stack afterwards; the theorems cover every depth and nesting, and the correspondence runs depths 0..10^5 (thorough 10^6) sampling all three stacks at every re-entry, comparing each shape with the reference evaluator and, on the real code, with the same function bound anonymously (no optimisation).",
+    note="Trusted: Lean kernel; axioms propext/Classical.choice/Quot.sound. Model/Gen.lean and Model/VM.lean are hand-written and tied to zygo/generator.go, vm.go, environment.go only by the `tail` (and C02's `eval`) correspondence: differential testing, not proof. The space theorem covers programs of the model generator's grammar (Bal.okLs) loaded into a fresh interpreter, successful steps of the model's loop; for the real interpreter and for forms outside the grammar the depths are held by the probe oracle on implementation and model; TcoTransparent is not proved (needs C02's CompileCorrect for the F3 fragment) and is held by the 3-way correspondence. Tail contexts outside the modelled core (package, return, macro expansions, infix blocks) are not covered by the theorems; `for` parts are non-tail in the model but have no step lemma. Constant space is a statement about the three interpreter stacks, not about Go heap use (closure creation in a loop is not constant-time in this interpreter: GenSymbol scans).",
     technique="Lean 4 theorems over an executable model of generator+VM and an independent definition of tail position; 3-way model/reference/implementation correspondence with stack-depth probes through the line protocol",
     design_ref="DESIGN.md §7 C09, §13; notes/C09.md",
 )
@@ -197,9 +197,15 @@ def run(rep):
     rep.coverage["proved"] = ("generator, all sizes/nestings: flag_mono, tailAt_emits, nonTailAt_emits (Proofs/Tail.lean) -> "
                               "tail_position_gets_tail_sequence, tail_sequence_layout, tail_flag_only_in_tail_position, self_call_dichotomy; "
                               "VM model, on runLoop: tail_sequence (+fixed/varargs), tail_call_reenters_at_entry_depths; induction over iterations: "
-                              "tail_call_constant_space_partial; transparency parts: tco_transparent_partial, bindParams_frame; "
+                              "tail_call_constant_space_partial (balance assumed), tail_call_constant_space (balance from C04's verifier, refinement assumed per stretch), "
+                              "tail_call_constant_space_same_activation / reentry_has_entry_depths (NO balance or refinement hypothesis: for every entry state satisfying C04's run-time invariant WF+Running, "
+                              "every re-entry of that activation at instruction 0 - any number of tail sequences, any calls in between - has the entry's data/scope/address depths; Proofs/RunAct.lean reentry_depths over C04's calling contract); "
+                              "tail_call_constant_space_full: the repaired full statement TailCallConstantSpace for every loaded program of the grammar (loaded_invariant: every reachable state satisfies WF+Running with the top-level text as bottom activation, Proofs/RunMain.lean); transparency parts: tco_transparent_partial, bindParams_frame; "
                               "legacy_tail_call_rebinds_captured_scope_counterexample vs current_tail_call_keeps_captured_scope")
-    rep.coverage["not_proved"] = ("TailCallConstantSpace in full (BodyBalanced is assumed for the body stretch, checked by the probe oracle); "
+    rep.coverage["not_proved"] = ("the statement of (c) as first written (TailCallConstantSpace_asFirstStated) is FALSE - its body relation admits a tail site of a LATER activation of f at the same address depth, "
+                                  "and then leaves the successor state unconstrained; kept visible under that name, with the counterexample described, not refuted in Lean. The repaired full statement TailCallConstantSpace "
+                                  "(same activation: the run never goes below the entry's address depth; all loaded programs of the generator's grammar Bal.okLs; called functions, a>0) IS proved (tail_call_constant_space_full); "
+                                  "programs outside that grammar (package, return, macros, infix) are not covered; "
                                   "TcoTransparent (VM model = reference evaluator on all well-formed programs): held by the `tail` correspondence")
     rep.assumptions += [
         "Model/Gen.lean, Model/VM.lean are hand-written; tied to the Go code by the `tail`/`eval` correspondences only (class, value, trace, four stack depths per text, three stack depths at every probe)",
